@@ -20,6 +20,7 @@ WRAPPED = ("open", "ls", "find", "glob", "expand_path", "walk", "makedirs", "mkd
 LISTING = ("ls", "find", "glob", "expand_path", "walk")
 MUTATING_CREATE = ("makedirs", "mkdir", "mkdirs", "touch", "pipe_file")
 MUTATING_REMOVE = ("rm", "rm_file", "rmdir")
+LISTING_ORDERS = ("native", "reversed", "creation", "creation_desc")
 
 
 class Fault:
@@ -38,8 +39,10 @@ class Fault:
 class VerifFS(LocalFileSystem):
     cachable = False          # never share instances between executions
 
-    def __init__(self, faults=(), yield_hook=None, **kw):
+    def __init__(self, faults=(), yield_hook=None, listing="native", **kw):
         super().__init__(**kw)
+        assert listing in LISTING_ORDERS, listing
+        self.listing = listing
         self._vf_lock = threading.RLock()
         self._vf_tls = threading.local()
         self.calls = []             # (n, method, path)
@@ -49,6 +52,23 @@ class VerifFS(LocalFileSystem):
         self.yield_hook = yield_hook
 
     # -------------------------------------------------------------------------------------------
+    def _reorder(self, res):
+        """the same entries in the order this instance is configured to list them in (a listing has no promised order)"""
+        if self.listing == "native" or not isinstance(res, list) or len(res) < 2:
+            return res
+        if self.listing == "reversed":
+            return res[::-1]
+        born = {}
+        for i, m in enumerate(list(self.mutations)):
+            if m[0] == "create" and m[1] is not None:
+                born[self._strip_protocol(str(m[1])).rstrip("/")] = i
+
+        def key(e):
+            name = e["name"] if isinstance(e, dict) else e
+            name = self._strip_protocol(str(name)).rstrip("/")
+            return (born.get(name, -1), name)
+        return sorted(res, key=key, reverse=(self.listing == "creation_desc"))
+
     def _depth(self):
         return getattr(self._vf_tls, "depth", 0)
 
@@ -187,6 +207,8 @@ def _make_wrapper(name):
             if not changed:
                 self.injected[-1] = self.injected[-1] + ("noop",)
             return new
+        if name == "ls":
+            return self._reorder(res)
         return res
 
     wrapper.__name__ = name
